@@ -200,3 +200,23 @@ Example C10_repetition_unconditional_nonvacuous :
   exists t r, build e = BuildOk t r /\ simple_reps t = true /\ rep_class t = true /\ depth_closed_variant t = false /\
     depth_variance t = Ok (Var (Bounded (BBoth 3 1))).
 Proof. cbv zeta. do 2 eexists. repeat split; vm_compute; reflexivity. Qed.
+
+From WaxProofs Require Import RootRep DepthRootedRep.
+
+(* ... and with the rootedness condition stated through has_root, as in the property's own quantifier: the glob starts plainly, so it
+   is never "sometimes rooted" (C12), and the verdict decides how every expansion begins (repetitions are written out at least once) *)
+Theorem C10_built_globs_with_simple_repetitions_sound_for_paths_rooted_like_the_glob : forall (orbit : char -> list char), (forall c d, In d (orbit c) -> d <> SEP) ->
+  forall e t r v p,
+  build e = BuildOk t r -> simple_reps t = true -> rep_class t = true -> starts_plainly t = true ->
+  depth_variance t = Ok v -> depth_closed_variant t = false ->
+  Lang orbit t p -> canonical p = true -> 1 <= ncomp p ->
+  starts_sep p = (match has_root t with Always => true | _ => false end) ->
+  in_variance (ncomp p) v.
+Proof. exact built_rep_depth_sound_rooted. Qed.
+Print Assumptions C10_built_globs_with_simple_repetitions_sound_for_paths_rooted_like_the_glob.
+
+Example C10_repetition_rooted_nonvacuous :
+  let e := [115;47;60;42;47;58;49;44;50;62;42;46;123;114;44;109;125]%N in
+  exists t r, build e = BuildOk t r /\ simple_reps t = true /\ rep_class t = true /\ starts_plainly t = true /\ depth_closed_variant t = false /\
+    has_root t = Never /\ depth_variance t = Ok (Var (Bounded (BBoth 3 1))).
+Proof. cbv zeta. do 2 eexists. repeat split; vm_compute; reflexivity. Qed.
